@@ -8,17 +8,18 @@ import OxiVerif.Model.ObjCanon
 /-!
 # Model.C30 — user-chosen resource names at the two emission sites and the three readers
 
-**Emission (what the code does — ESCAPED at the dictionary site since fix 16fac722, still RAW at
-the content site):**
-* dictionary site: `writer/pdf_writer/mod.rs` `write_object_value`, `Name` arm and dictionary
-  keys (`/` + `escape_pdf_name_bytes(name)`) — that is `Model.serRaw` / `Model.ser` with
-  `Model.escapeName` (`Model/Serializer.lean`, shared with C09; the pre-fix raw emission is kept
-  there as `serUnescaped`).  Page resources are assembled by
+**Emission (what the code does — the same `#XX` escaping at both sites):**
+* dictionary site (escaped since fix 16fac722): `writer/pdf_writer/mod.rs` `write_object_value`,
+  `Name` arm and dictionary keys (`/` + `escape_pdf_name_bytes(name)`) — that is `Model.serRaw` /
+  `Model.ser` with `Model.escapeName` (`Model/Serializer.lean`, shared with C09; the pre-fix raw
+  emission is kept there as `serUnescaped`).  Page resources are assembled by
   `write_page_with_fonts` (`xobject_dict.set(name, Reference)`, `font_dict.set(font_name, …)`,
   `cs_dict`, `pat_dict`, `sh_dict`): `pageObj` below.
-* content site: `graphics/ops.rs` `serialize_ops`: `writeln!(out, "/{name} Do")`, `cs`, `CS`, `gs`,
-  `ri`, `sh`, `"/{name} {size} Tf"`; `page.rs` `begin_marked_content`:
-  `format!("/{} <</MCID {}>> BDC\n", tag, mcid)`: `opName`, `opTf`, `opBDC` below.
+* content site (escaped since the repair of C30-F1/F2): `graphics/ops.rs` `serialize_ops`:
+  `write_name_operand(out, name)` (= `/` + `escape_pdf_name_bytes(name)`) followed by ` Do\n`,
+  ` cs\n`, ` CS\n`, ` gs\n`, ` ri\n`, ` sh\n`, ` {size} Tf\n`; `page.rs` `begin_marked_content`:
+  `format!("/{} <</MCID {}>> BDC\n", escape_tag(tag), mcid)`: `opName`, `opTf`, `opBDC` below.
+  The emission before the repair (raw names) is kept as `opNameOld`, `opTfOld`, `opBDCOld`.
 * `page.rs` `validate_pdf_resource_name` (called by `add_form_xobject`, `add_color_space`,
   `add_pattern`, `add_shading` — NOT by `add_image`, font registration, `set_custom_font`,
   `paint_shading`, `draw_image`, `begin_marked_content`): `validName`.
@@ -31,8 +32,6 @@ the content site):**
   `Model/ContentTokenizer.lean` this property needs (that file belongs to C01/C21);
 * the independent strict reader `Spec.Syntax` (ISO 32000-1 §7.2–7.3, §7.8.2).
 
-**The repair's specification (content site):** `opNameEscaped` — the same `#XX` escaping
-(`Model.escapeName`) applied to operands.
 Import-free apart from OxiVerif's own import-free modules.
 -/
 namespace OxiVerif.C30
@@ -57,14 +56,28 @@ def kBMC : List Nat := [66, 77, 67]
 def kBI : List Nat := [66, 73]
 def kID : List Nat := [73, 68]
 
-/-- `writeln!(out, "/{name} <kw>")` — `Do cs CS gs ri sh` -/
-def opName (n kw : List Nat) : List Nat := 47 :: (n ++ 32 :: (kw ++ [10]))
+/-- `write_name_operand(out, name); out.extend_from_slice(b" <kw>\n")` — `Do cs CS gs ri sh`;
+    `write_name_operand` = `/` + `escape_pdf_name_bytes(name)` -/
+def opName (n kw : List Nat) : List Nat := 47 :: (escapeName n ++ 32 :: (kw ++ [10]))
 
-/-- `writeln!(out, "/{name} {size} Tf")`; `sizeTok` = the text Rust's `Display` gave for the size -/
-def opTf (n sizeTok : List Nat) : List Nat := 47 :: (n ++ 32 :: (sizeTok ++ [32, 84, 102, 10]))
+/-- `write_name_operand(out, name); writeln!(out, " {size} Tf")`; `sizeTok` = the text Rust's
+    `Display` gave for the size -/
+def opTf (n sizeTok : List Nat) : List Nat := 47 :: (escapeName n ++ 32 :: (sizeTok ++ [32, 84, 102, 10]))
+
+/-- `format!("/{} <</MCID {}>> BDC\n", escape_tag(tag), mcid)` -/
+def opBDC (tag mcidTok : List Nat) : List Nat :=
+  47 :: (escapeName tag ++ [32, 60, 60, 47, 77, 67, 73, 68, 32] ++ mcidTok ++ [62, 62, 32, 66, 68, 67, 10])
+
+/-! ### the content site before its repair (raw names) — the regression the check must catch -/
+
+/-- `writeln!(out, "/{name} <kw>")` -/
+def opNameOld (n kw : List Nat) : List Nat := 47 :: (n ++ 32 :: (kw ++ [10]))
+
+/-- `writeln!(out, "/{name} {size} Tf")` -/
+def opTfOld (n sizeTok : List Nat) : List Nat := 47 :: (n ++ 32 :: (sizeTok ++ [32, 84, 102, 10]))
 
 /-- `format!("/{} <</MCID {}>> BDC\n", tag, mcid)` -/
-def opBDC (tag mcidTok : List Nat) : List Nat :=
+def opBDCOld (tag mcidTok : List Nat) : List Nat :=
   47 :: (tag ++ [32, 60, 60, 47, 77, 67, 73, 68, 32] ++ mcidTok ++ [62, 62, 32, 66, 68, 67, 10])
 
 /-! ## `validate_pdf_resource_name` -/
@@ -85,13 +98,9 @@ def SafeName (n : List Nat) : Bool := allB (fun b => Spec.Syntax.isRegular b && 
 def PrintableName (n : List Nat) : Bool :=
   allB (fun b => 33 ≤ b && b ≤ 126 && !Spec.Syntax.isDelim b && b != 35) n
 
-/-- the dictionary site since fix 16fac722 (`escape_pdf_name_bytes`, = `Model.escapeName`): every
-    byte outside `!`..`~`, every delimiter and `#` as `#XX`.  The same emission is the proposed
-    repair for the content site. -/
+/-- both sites now (`escape_pdf_name_bytes` = `Model.escapeName`): every byte outside `!`..`~`,
+    every delimiter and `#` as `#XX` -/
 def emitEscaped (n : List Nat) : List Nat := 47 :: escapeName n
-
-/-- the content-site repair: `writeln!(out, "/{} <kw>", escape_pdf_name(name))` -/
-def opNameEscaped (n kw : List Nat) : List Nat := 47 :: (escapeName n ++ 32 :: (kw ++ [10]))
 
 /-! ## the library's content tokenizer (copy of the needed part of `Model/ContentTokenizer.lean`) -/
 
@@ -208,7 +217,8 @@ def readNumber (inp : List Nat) : Step :=
   else
     match parseI32 numStr with
     | some i => .tok (.integer i) m.2.2
-    | none => .err
+    -- fix 00af9054: an integer token outside `i32` is read as a real (`parse::<f32>` needs a digit)
+    | none => if countDigits m.1 > 0 then .tok (.number numStr) m.2.2 else .err
 
 inductive LitSt where
   | normal
